@@ -37,4 +37,7 @@ namespace Kmip
 /-- struct descriptors (fields.go, types.go) -/
 theorem GenC19_codec_src_desc : KmipGen.codecSrc_desc = ExpectCodec.codecSrc_desc := by decide
 
+/-- encoder (encode.go, encode_core.go): it is the encoder that puts each field's item inside its structure's length -/
+theorem GenC19_codec_src_enc : KmipGen.codecSrc_enc = ExpectCodec.codecSrc_enc := by decide
+
 end Kmip
